@@ -140,7 +140,7 @@ func callbackReentrancy(env *vh.Env, rep *vh.Report) {
 	if env.Thorough {
 		reps = 10
 	}
-	inner := []string{"Size", "Put", "PutForce", "GetNoWait", "Clear", "SetCapacity", "none(slow callback)"}
+	inner := []string{"Size", "Put", "PutForce", "GetNoWait", "Clear", "SetCapacity", "SetCapacity0", "SetCapacity-1", "SetCapacity1", "none(slow callback)"}
 	for _, dbl := range []bool{false, true} {
 		name := "RequestQueue"
 		if dbl {
@@ -192,11 +192,12 @@ func callbackReentrancy(env *vh.Env, rep *vh.Report) {
 								} else {
 									d.Clear()
 								}
-							case "SetCapacity":
+							case "SetCapacity", "SetCapacity0", "SetCapacity-1", "SetCapacity1":
+								nc := map[string]int{"SetCapacity": capacity, "SetCapacity0": 0, "SetCapacity-1": -1, "SetCapacity1": 1}[in]
 								if q != nil {
-									q.SetCapacity(capacity)
+									q.SetCapacity(nc)
 								} else {
-									d.SetCapacity(capacity, capacity)
+									d.SetCapacity(nc, nc)
 								}
 							}
 						}
@@ -270,7 +271,7 @@ func callbackReentrancy(env *vh.Env, rep *vh.Report) {
 							rep.Fail("property", name+"."+outer+":not-atomic",
 								fmt.Sprintf("%s capacity %d: a %s by another goroutine took effect in the middle of %s (while its callback was running): %s is not atomic", name, capacity, in, outer, outer), replay)
 							return
-						case sz > capacity:
+						case sz > capacity && !strings.HasPrefix(in, "SetCapacity"):
 							rep.Fail("property", name+"."+outer+":bounded", fmt.Sprintf("%s capacity %d: Size() = %d after %s with a concurrent %s from its callback", name, capacity, sz, outer, in), replay)
 							return
 						case outer == "PutForce" && len(evicted) > 0 && evicted[0] != 1:
